@@ -257,3 +257,20 @@ PROPS["C02"] = {
         lane("TestContract", "contract", 400, 2000, shards=16, must_classes=["multi-file-package", "ref-cross-package", "inline-depth>=2", "path-parameter", "topic:reqres", "topic:upsert", "inline-name-override"]),
     ],
 }
+
+PROPS["C14"] = {
+    "pkg": "c14",
+    "level": "exploration",
+    "technique": "property-based testing (rapid): metamorphic comparison of byte-exact outputs across permuted listings, call orders, reused vs fresh PackageSets, repetitions and (thorough) separate processes",
+    "level_text": ("For generated multi-file, multi-package bundles (map-valued enum option info, imports, services, topics, odd names) the deterministic marshalling of every "
+                   "FileDescriptorProto and the PrintFile text are compared byte for byte between a baseline compile and: two in-process repetitions, a compile "
+                   "with the file and package listings permuted, a compile of all packages on one shared PackageSet in a permuted (and repeating) call order, and in "
+                   "the thorough tier a compile in a separate process (different Go map seeds)."),
+    "level_note": "Sampled; separate processes sample a handful of hash seeds, not all. Go map iteration order differs between ranges even within a process, which is what the in-process repetitions exploit.",
+    "rule": ("determinism: j5sgen.Draw (<=3 packages x <=3 files, odd names on). Non-trivial: >=2 files in a package and >=2 packages, or an enum option info map. "
+             "Distinct by hash(sources, file order, call order)."),
+    "assumptions": [],
+    "lanes": [
+        lane("TestDeterminism", "determinism", 150, 800, shards=16, must_classes=["enum-option-info", "multi-package", "multi-file-package"]),
+    ],
+}
